@@ -9,6 +9,7 @@ package checks
 // delete+insert, value freed by a garbage-collected row).
 
 import (
+	"sync/atomic"
 	"fmt"
 	"sort"
 	"strings"
@@ -151,6 +152,8 @@ func byUUID(u string) []ref.Cond {
 	return []ref.Cond{{Col: "_uuid", Fn: "==", Val: ref.Set(ref.UUID(u))}}
 }
 
+var c06GCHandOvers int64
+
 // indexedTxn builds the hand-over patterns on an indexed table.
 func indexedTxn(p *prng.R, g *gen.G, s *tspace.Schema, db *ref.DB) []ref.Op {
 	var cands []*tspace.Table
@@ -190,6 +193,73 @@ func indexedTxn(p *prng.R, g *gen.G, s *tspace.Schema, db *ref.DB) []ref.Op {
 		}
 	}
 	pat := p.Intn(6)
+	// A non-root row X of an indexed table is looked at or changed by the transaction,
+	// loses its last strong referrer in the same transaction (garbage collection) and
+	// another row takes over its index values: the final state has no duplicate.
+	if !s.RootSet(t.Name) && p.Chance(1, 2) {
+		type holder struct{ table, uuid, col string }
+		var hs []holder
+		x := a
+		for _, ht := range s.Tables {
+			for hu, hr := range db.T[ht.Name] {
+				for _, hc := range ht.Cols {
+					strong := (hc.Key.IsStrong() && hc.Key.RefTable == t.Name) || (hc.Val != nil && hc.Val.IsStrong() && hc.Val.RefTable == t.Name)
+					if !strong {
+						continue
+					}
+					d := hr[hc.Name]
+					found := d.Has(ref.UUID(x))
+					for _, v := range d.V {
+						if v == ref.UUID(x) {
+							found = true
+						}
+					}
+					if found {
+						hs = append(hs, holder{ht.Name, hu, hc.Name})
+					}
+				}
+			}
+		}
+		if len(hs) == 1 && !(hs[0].table == t.Name && hs[0].uuid == x) {
+			hc := s.Table(hs[0].table).Col(hs[0].col)
+			if !hc.Immutable && hc.Min == 0 {
+				var ops []ref.Op
+				switch p.Intn(3) {
+				case 0:
+					ops = append(ops, ref.Op{Kind: "select", Table: t.Name, Where: byUUID(x)})
+				case 1:
+					for _, c := range t.Cols {
+						if !c.Immutable && !c.Key.IsRef() && (c.Val == nil || !c.Val.IsRef()) && c.Name != "name" {
+							ops = append(ops, ref.Op{Kind: "update", Table: t.Name, Where: byUUID(x), Row: ref.Row{c.Name: g.Value(c, db, nil)}})
+							break
+						}
+					}
+				}
+				empty := ref.Datum{Map: hc.IsMap()}
+				ops = append(ops, ref.Op{Kind: "update", Table: hs[0].table, Where: byUUID(hs[0].uuid), Row: ref.Row{hs[0].col: empty}})
+				row := db.T[t.Name][x].Clone()
+				for _, c := range t.Cols {
+					if c.Key.IsRef() || (c.Val != nil && c.Val.IsRef()) {
+						delete(row, c.Name)
+					}
+				}
+				// the successor must itself be referenced (same holder column) or it is collected too
+				nu := p.UUID()
+				ops = append(ops, ref.Op{Kind: "insert", Table: t.Name, UUID: nu, UUIDName: "successor", Row: row})
+				succ := ref.Set(ref.UUID("successor"))
+				if hc.IsMap() {
+					if hc.Key.IsRef() {
+						succ = ref.Datum{Map: true}.WithPair(ref.UUID("successor"), g.Atom(*hc.Val, db, nil))
+					} else {
+						succ = ref.Datum{Map: true}.WithPair(g.Atom(hc.Key, db, nil), ref.UUID("successor"))
+					}
+				}
+				ops = append(ops, ref.Op{Kind: "update", Table: hs[0].table, Where: byUUID(hs[0].uuid), Row: ref.Row{hs[0].col: succ}})
+				atomic.AddInt64(&c06GCHandOvers, 1)
+				return ops
+			}
+		}
+	}
 	if len(t.Indexes) >= 2 && len(us) >= 2 && p.Chance(1, 2) {
 		// two indexes: a row is removed and another row (new or existing) takes over its
 		// value on one index while its value on the OTHER index collides with an untouched
@@ -286,6 +356,7 @@ func indexedTxn(p *prng.R, g *gen.G, s *tspace.Schema, db *ref.DB) []ref.Op {
 }
 
 func c06Child(r *ev.Run, batch int) {
+	defer func() { r.Count("gc_hand_over_transactions", int(atomic.LoadInt64(&c06GCHandOvers))) }()
 	schemas := r.N(4, 100)
 	txns := r.N(150, 400)
 	for si := 0; si < schemas; si++ {
@@ -295,8 +366,15 @@ func c06Child(r *ev.Run, batch int) {
 		o.RefBias = 20
 		o.FewTypes = p.Bool()
 		s := tspace.Gen(p, o)
+		gcFamily := si%4 == 3 // directed: indexes on a non-root table under garbage collection
+		if gcFamily {
+			s = c06GCSchema(p)
+		}
 		// make sure indexes exist and range over scalar columns only
 		for _, t := range s.Tables {
+			if gcFamily {
+				break
+			}
 			var scalars []string
 			for _, c := range t.Cols {
 				if c.IsScalar() && !c.Key.IsRef() && c.Key.Type != "uuid" && c.Key.Type != "real" && c.Name != "name" && !c.Ephemeral {
@@ -344,7 +422,9 @@ func c06Child(r *ev.Run, batch int) {
 		}
 		for ti := 0; ti < txns; ti++ {
 			var ops []ref.Op
-			if ti%3 != 0 {
+			if gcFamily && ti%4 != 0 {
+				ops = c06GCTxn(p, s, pre)
+			} else if ti%3 != 0 {
 				ops = indexedTxn(p, g, s, pre)
 			}
 			if ops == nil {
